@@ -66,7 +66,7 @@ def cleanup():
 
 def coq_files():
     out = []
-    for d in ('Base', 'Gen', 'Model', 'Proofs', 'Properties'):
+    for d in ('Base', 'Gen', 'Model', 'Samples', 'Proofs', 'Properties'):
         out += sorted(glob.glob(os.path.join(COQ, d, '*.v')))
     return [os.path.relpath(p, COQ) for p in out]
 
@@ -386,14 +386,14 @@ class Report:
         if self.failures:
             replay = os.path.join(VERIF, 'replays', '%s-%s-seed%d.json' % (self.pid, self.tier, seed()))
             with open(replay, 'w') as fh:
-                json.dump({'property': self.pid, 'kind': 'failing-input',
+                json.dump({'property': self.pid, 'kind': 'failing-input', 'tree': tree_id(),
                            'failures': self.failures[:20], 'broken': self.broken}, fh, indent=1)
             lines.append('VIOLATION property=%s replay=%s' % (self.pid, replay))
             rc = 1
         elif self.broken:
             replay = os.path.join(VERIF, 'replays', '%s-%s-seed%d-broken.json' % (self.pid, self.tier, seed()))
             with open(replay, 'w') as fh:
-                json.dump({'property': self.pid, 'kind': 'broken-obligation-or-correspondence',
+                json.dump({'property': self.pid, 'kind': 'broken-obligation-or-correspondence', 'tree': tree_id(),
                            'broken': self.broken}, fh, indent=1)
             lines.append('VIOLATION property=%s replay=%s no-failing-input-found' % (self.pid, replay))
             rc = 1
@@ -421,6 +421,16 @@ class Report:
             len(self.known_seen), rc))
         cleanup()
         return rc
+
+
+def tree_id():
+    """identifies the tree a replay was produced on (HEAD + summary of uncommitted changes)"""
+    try:
+        head = subprocess.run(['git', '-C', repo(), 'rev-parse', 'HEAD'], capture_output=True, text=True, timeout=20).stdout.strip()
+        st = subprocess.run(['git', '-C', repo(), 'diff', '--stat'], capture_output=True, text=True, timeout=20).stdout.strip().splitlines()
+        return {'repo': repo(), 'head': head, 'uncommitted': st[-8:]}
+    except Exception as e:  # noqa
+        return {'repo': repo(), 'error': str(e)}
 
 
 def canon_hash(obj):
